@@ -194,22 +194,34 @@ def run_world(scn):
     """execute the ops; per randomize call return observation + pvdrv request"""
     from vsc.model.rand_state import RandState
     built = build_classes(scn)
-    with common.quiet():
-        root = built[scn["root"]]()
     spaths = scalar_paths(scn)
     opaths = object_paths(scn)
-    idmap = {id(obj_at(root, p)): ".".join(p) for p, _ in opaths}
     pidx = {".".join(p): i for i, (p, _) in enumerate(spaths)}
-    # initial values
-    for p, decl in spaths:
-        o = obj_at(root, p[:-1])
-        if decl.get("enums"):
-            setattr(o, p[-1], S.enum_type(decl["enums"])(decl["val"]))
-        else:
-            setattr(o, p[-1], decl["val"])
+    roots = []
+    idmap = {}
+
+    def new_root():
+        with common.quiet():
+            r = built[scn["root"]]()
+        for p, decl in spaths:
+            o = obj_at(r, p[:-1])
+            if decl.get("enums"):
+                setattr(o, p[-1], S.enum_type(decl["enums"])(decl["val"]))
+            else:
+                setattr(o, p[-1], decl["val"])
+        idmap.update({id(obj_at(r, p)): ".".join(p) for p, _ in opaths})
+        roots.append(r)
+    new_root()
     rm_hist, cm_hist, out = [], [], []
     for op in scn["ops"]:
         k = op["op"]
+        inst = op.get("inst", 0)
+        if k == "new":
+            new_root()
+            continue
+        if inst >= len(roots):
+            inst = 0
+        root = roots[inst]
         if k == "set":
             o = obj_at(root, op["path"][:-1])
             setattr(o, op["path"][-1], op["val"])
@@ -217,11 +229,11 @@ def run_world(scn):
             o = obj_at(root, op["path"][:-1])
             with vsc.raw_mode():
                 getattr(o, op["path"][-1]).rand_mode = op["val"]
-            rm_hist.append([op["path"], op["val"]])
+            rm_hist.append([op["path"], op["val"], inst])
         elif k == "constraint_mode":
             o = obj_at(root, op["obj"])
             getattr(o, op["block"]).constraint_mode(op["val"])
-            cm_hist.append([op["obj"], op["block"], op["val"]])
+            cm_hist.append([op["obj"], op["block"], op["val"], inst])
         elif k == "randomize":
             target = obj_at(root, op["target"])
             before = read_values(root, spaths)
@@ -258,6 +270,7 @@ def run_world(scn):
                                              for a in r["answers"]]})
             cbs = [(ph, idmap.get(i, "?")) for ph, i in CB_LOG]
             req = {"op": "o.call", "classes": scn["classes"], "root": scn["root"], "rand_mode": list(rm_hist), "cmode": list(cm_hist),
+                   "inst": inst,
                    "target": op["target"], "inline": op.get("inline"), "values": before, "rec": recs, "enumLimit": 13,
                    "implFinal": after if outcome == "ok" else None}
             out.append({"op": op, "before": before, "after": after, "outcome": outcome, "exc": exc, "obs": obs, "uncon": uncon,
